@@ -77,27 +77,30 @@ def run(ctx):
         return
 
     # ---------- S1
-    sws = [s for s in q.switches_on(b, lambda d: d[0] == 'discr') if 'OldPalette04' in switch_variants(b, s).values()]
-    if len(sws) != 1:
-        ctx.fail(PF + '|S1|no-dispatch', 'parse_frame: expected exactly one match on ChunkType, found %d' % len(sws))
+    arms = common.dispatch_arms(b)
+    if arms is None:
+        ctx.fail(PF + '|S1|no-dispatch', 'parse_frame: no match on ChunkType found')
         return
-    sw = sws[0]
-    names = switch_variants(b, sw)
+    sw = arms[0][3]
     tm = b.blocks[sw]['term']
     arm_of = {}
-    for v, s in tm['targets']:
-        arm_of.setdefault(s, []).append(names.get(v, str(v)))
+    region_of = {}
+    for kind_, s_, reg_, _ in arms:
+        k_ = (s_, tuple(sorted(reg_)))
+        arm_of.setdefault(k_, []).append(kind_)
+        region_of[k_] = reg_
     ctx.floor('chunk kinds dispatched', sum(len(v) for v in arm_of.values()), 14)
     ctx.inst('S1', 'dispatch#otherwise', b.blocks[tm['otherwise']]['term']['k'] == 'unreachable',
              'match chunk_type is exhaustive (otherwise edge is unreachable)', tm['span'], key=PF + '|S1|exhaustive')
 
-    def arm_writes(s):
-        reg = q.edge_region(b, sw, s)
+    def arm_writes(k_):
+        reg = region_of[k_]
         ws = [w for w in E.writes(b, blocks=reg) if effects.root_of(w[0])[0] == pi_idx]
         return reg, ws
 
-    for s, kinds in sorted(arm_of.items()):
-        reg, ws = arm_writes(s)
+    for k_, kinds in sorted(arm_of.items()):
+        s = k_[0]
+        reg, ws = arm_writes(k_)
         cw = [w for w in ws if effects.root_of(w[0])[1] == [CTX]]
         span = b.blocks[s]['term'].get('span') if b.blocks[s]['term'] else tm['span']
         for w in cw:
